@@ -978,8 +978,17 @@ def r28_annotation_members(c, facts, rule='C02.R28'):
             n += 1
         drops = sorted({P.strip(callee_of(t)['def']).split('::')[-1] for b, t in fn.calls() if callee_of(t) and P.strip(callee_of(t)['def']).split('::')[-1] in ('flat_map', 'filter_map', 'filter', 'flatten', 'take_while', 'map_while', 'skip_while') and 'Iterator' in P.strip(callee_of(t)['def'])})
         for d in drops:
-            c.bad(R, '%s:members-filtered:%s' % (home, d), 'Annotation::%s passes the members of the annotation value through %s: a member that is not of the expected type is dropped without a diagnostic' % (home, d), fn=fn.qname, adaptor=d)
-        if not drops and fn.kind != 'Closure':
+            c.bad(R, '%s:members-filtered' % home, 'Annotation::%s passes the members of the annotation value through %s: a member that is not of the expected type is dropped without a diagnostic' % (home, d), fn=fn.qname, adaptor=d)
+        # the loop form of the same thing: an iteration over the members that can go on without having stored one
+        g = facts.normalised(fn) if fn.kind != 'Closure' else fn
+        stores = {bb for bb, tt in g.calls() if callee_of(tt) and P.strip(callee_of(tt)['def']).split('::')[-1] in ('push', 'insert', 'extend', 'insert_full', 'push_back')}
+        skipped = False
+        for b, t in P.call_blocks(g, 'Iterator::next'):
+            if stores and b in g.reachable_from(t['target'], avoid=stores | P.err_blocks(g)) and not drops:
+                skipped = True
+        if skipped:
+            c.bad(R, '%s:members-filtered' % home, 'Annotation::%s loops over the members of the annotation value and can go on to the next one without having stored the present one: a member that is not of the expected type is dropped without a diagnostic' % home, fn=fn.qname, adaptor='loop')
+        if not drops and not skipped and fn.kind != 'Closure':
             c.ok(R, {'fn': fn.qname, 'element-dropping adaptors': 'none'})
     c.floor(R, 'accessors of Annotation', n, 7)
 
